@@ -120,8 +120,58 @@ CONTROLS = [
 ]
 
 
-def check(cx):
+# ---- scope: the shape rules (S1-S5, S12, S13) run over every impl of the crate, but a finding is reported under the property that owns
+# the file it is in: C03 keeps the sources and single-input operators of its statement (and the shared infrastructure), the others
+# take theirs through envelopes(cx, <property>) as rule ENV
+OWNERS = {
+    'C04': ('src/ops/merge.rs', 'src/ops/zip.rs', 'src/ops/combine_latest.rs', 'src/ops/with_latest_from.rs', 'src/ops/take_until.rs', 'src/ops/skip_until.rs',
+            'src/ops/sample.rs'),
+    'C05': ('src/ops/merge_all.rs',),
+    'C06': ('src/subject.rs', 'src/subscriber.rs'),
+    'C07': ('src/ops/delay.rs', 'src/ops/observe_on.rs', 'src/ops/subscribe_on.rs'),
+    'C08': ('src/observable/interval.rs', 'src/observable/timer.rs', 'src/observable/from_stream.rs', 'src/observable/from_stream_result.rs', 'src/observable/from_future.rs'),
+    'C09': ('src/ops/debounce.rs', 'src/ops/throttle.rs'),
+    'C11': ('src/ops/ref_count.rs', 'src/observable/connectable_observable.rs'),
+    'C12': ('src/subject/behavior_subject.rs',),
+    'C14': ('src/ops/future.rs', 'src/ops/stream.rs', 'src/ops/complete_status.rs'),
+    'C15': ('src/ops/finalize.rs',),
+    'C20': ('src/ops/group_by.rs',),
+}
+SCOPED = ('S1', 'S2', 'S3', 'S4', 'S5', 'S12', 'S13')
+# files that serve several properties: reported under C03 and, in addition, under these
+SHARED_FILES = {'src/ops/buffer.rs': ('C04', 'C09'), 'src/ops/sample.rs': ('C09',)}
+
+
+def _owner(f):
+    if f.key.startswith(('table:', 'floor')) or f.key == 'floor':
+        return None
+    file = (f.loc or '').split(':', 1)[0]
+    for prop, files in OWNERS.items():
+        if file in files:
+            return prop
+    return None
+
+
+def _all(cx):
     return s1(cx) + s234(cx) + s5(cx) + s6(cx) + s7(cx) + s8(cx) + s9(cx) + s10(cx) + s11(cx) + s12(cx) + s13(cx)
+
+
+def check(cx):
+    return [f for f in _all(cx) if not (f.rule in SCOPED and _owner(f))]
+
+
+def envelopes(cx, prop):
+    """the shape findings (notification envelopes, is_finished answers, silent terminals, initial state) for the files `prop` owns"""
+    if cx.control:
+        return []
+    out = []
+    for f in s1(cx) + s234(cx) + s5(cx) + s12(cx) + s13(cx):
+        if f.rule not in SCOPED:
+            continue
+        file = (f.loc or '').split(':', 1)[0]
+        if _owner(f) == prop or prop in SHARED_FILES.get(file, ()):
+            out.append(Finding(prop, 'ENV', f.rule + ':' + f.key, f.ok, f.msg, f.loc, f.witness))
+    return out
 
 
 def _src_event(n):
@@ -1304,10 +1354,14 @@ def s13(cx):
     res = []
     # 1. how do the notification handlers write each bool / usize field of a state struct?
     writes = {}      # (adt, field) -> set of 'true' / 'false' / '+' / '-' / '?'
+    slot_fields = set()
+    import re as _re
     for im in cx.observer_impls():
         tag = roles.impl_tag(cx, im)
         if cx.control != ('verif_controls' in tag):
             continue
+        m_ = _re.match(r'^(?:MutRc|MutArc)<(?:Option<)?([^<>]+)', tag)
+        owner = m_.group(1) if m_ else tag
         for meth in ('next', 'error', 'complete'):
             fn = cx.method(im, meth)
             if fn is None:
@@ -1338,7 +1392,15 @@ def s13(cx):
                     kind = '+' if strip(r[1])[1].startswith('Add') else ('-' if strip(r[1])[1].startswith('Sub') else '?')
                 else:
                     kind = '?'
-                writes.setdefault(plain[-1], set()).add(kind)
+                if len(plain) != 1:
+                    continue          # (a field of a nested struct: its owner is not this observer type)
+                writes.setdefault((owner, plain[-1]), set()).add(kind)
+            for x in g.nodes:
+                if down_method(x) in ('next', 'error', 'complete') and x['args']:
+                    root, steps = access_path(x['args'][0])
+                    pl = [st for st in steps if not st.startswith(('@', '!', 'as ', '['))]
+                    if root[0] == 'arg' and root[1] == 1 and pl:
+                        slot_fields.add((owner, pl[0]))
     # 2. every construction site of a struct that has such a field
     inits = {}       # (adt, field) -> [(expr, fn)]
     for fn in F.fns.values():
@@ -1377,7 +1439,9 @@ def s13(cx):
     for (adt, field), sites in sorted(inits.items()):
         if cx.control != ('verif_controls' in adt):
             continue
-        w = writes.get(field)
+        w = writes.get((adt, field))
+        if (adt, field) in slot_fields:
+            continue          # the downstream slot starts occupied by definition
         if not w or not any(F.tystr(t) in ('bool', 'usize') or F.tystr(t).startswith('std::option::Option<') for f, t in roles.adt_fields(cx, adt) if f == field):
             continue
         if not any(roles.impl_tag(cx, im) == adt or adt.endswith(('ObserverData',)) or True for im in cx.observer_impls()):
@@ -1389,7 +1453,7 @@ def s13(cx):
             want = 'true'
         elif w == {'+'}:
             want = '0'
-        elif 'some' in w and w <= {'some', 'none'}:
+        elif w == {'some'}:
             want = 'None'
         if want is None:
             continue
